@@ -147,8 +147,13 @@ def judge_call(ctx, st, case, S, P, R, pat, rep, mm, label=""):
     """one real call with the given objects, judged against the harness's removal-set oracle -> share_any"""
     events.SCHEDULE["sample"] = case["sample"]
     kw = dict(atol=0.05, replace_all=case["replace_all"], replace_fraction=case["fraction"])
+    # the flag in the forms a caller may have at hand: omitted / Python bool / numpy bool (a comparison result) / 0 or 1
+    form = case["s"] % 4
     if case["ignore"]:
-        kw["ignore_atoms_should_not_be_deleted_twice"] = True
+        kw["ignore_atoms_should_not_be_deleted_twice"] = [True, True, np.bool_(True), 1][form]
+    elif form:
+        kw["ignore_atoms_should_not_be_deleted_twice"] = [None, False, np.bool_(False), 0][form]
+    st.seen("flag_form", "%s/%s" % (case["ignore"], ["omitted-or-True", "bool", "numpy.bool_", "int"][form]))
     obs = replcase.observe_replace(S, P, R, case["s"], **kw)
     st.count("replace_calls")
     w = {"case": {k: case[k] for k in ("topology", "repl", "cell", "replace_all", "ignore", "fraction", "sample")}, "elements": list(S.elements),
@@ -242,6 +247,8 @@ def requirements(stats, tier):
             need.append("outcome class %s not observed (have %s)" % (c, sorted(have)))
     if stats.get("dedicated_error_raised") < 30 or stats.get("conservation_checked") < 100:
         need.append("error raised %d times, conservation checked %d times" % (stats.get("dedicated_error_raised"), stats.get("conservation_checked")))
+    if stats.nseen("flag_form") < 8:
+        need.append("forms of the ignore flag observed: %s" % sorted(stats.sets.get("flag_form", [])))
     if stats.nseen("topology") < 5 or stats.nseen("repl") < len(REPLS):
         need.append("not all topologies / replacement kinds observed")
     return need
